@@ -35,7 +35,7 @@ def gen_one(rng: random.Random) -> dict:
     fmt = rng.choice(["fb", "npz", "tfrec"])
     comp = rng.choice(["", "LZ4"] if fmt == "fb" else ["", "ZIP"] if fmt == "npz" else ["", "GZIP"])
     eps = rng.choice([1, 2, 3, 4, 6])
-    style = rng.choice(["literal", "alias", "alias", "mixed"])
+    style = rng.choice(["literal", "alias", "alias", "mixed", "nested-alias"])
     sessions = []
     for _ in range(rng.randint(1, 2)):
         splits = rng.sample(["train", "test", "holdout"], rng.randint(1, 2))
@@ -50,6 +50,15 @@ def gen_one(rng: random.Random) -> dict:
                 current = rng.choice(VALUES)
             elif roll < 0.4:
                 current = None
+            if style == "nested-alias":
+                # ONE dict whose nested part is updated in place between writes (top-level keys untouched)
+                if roll < 0.4 or _k == 0:
+                    write["meta"] = {"obj": "nested", "set": {"who": "dev"},
+                                     "nested_set": [["cfg", "rev", rng.randrange(4)]]}
+                elif roll < 0.8:
+                    write["meta"] = {"obj": "nested"}
+                writes.append(write)
+                continue
             if current is not None:
                 use_alias = style == "alias" or (style == "mixed" and rng.random() < 0.5)
                 if use_alias:
@@ -74,6 +83,8 @@ def token(write: dict) -> str:
     if meta is None:
         return "-"
     value = meta.get("set") if "obj" in meta else meta.get("lit")
+    if meta.get("obj") == "nested":
+        return "@n" + (str(meta["nested_set"][0][2]) if meta.get("nested_set") else "=")
     return ("@" if "obj" in meta else "") + str(VALUES.index(value) if value in VALUES else "?")
 
 
@@ -105,10 +116,11 @@ def run_case(case: dict) -> dict:
         for session in hist["sessions"]:
             for write in session["writes"]:
                 meta = write.get("meta")
-                if meta and "obj" in meta and prev is not None and prev != meta.get("set"):
+                if meta and "obj" in meta and prev is not None and prev != (meta.get("set"), meta.get("nested_set")):
                     obs["aliased_mutations"] += 1
+                    obs["nested_in_place_mutations"] += int(bool(meta.get("nested_set")))
                 if meta and "obj" in meta:
-                    prev = meta.get("set")
+                    prev = (meta.get("set"), meta.get("nested_set"))
         obs["labelled_writes"] = labelled
         sig = [hist["fmt"], hist["eps"], [[w["split"][0] + token(w) for w in s["writes"]] for s in hist["sessions"]]]
         return {"sig": sig, "nontrivial": labelled > 0, "violations": violations, "obs": dict(obs),
